@@ -346,6 +346,16 @@ def rule_e(ctx, cr):
             r = f.variants_at(b, "_2")
             if l and r and len(l) == 1 and len(r) == 1:
                 cells.setdefault((next(iter(l)), next(iter(r))), set()).add(st["rv"]["variant"])
+        # a constructor handed to a combinator (`checked_add(r).map(Integer)`) builds that variant
+        for c in f.calls():
+            for a in c.args:
+                v = f.value_of_operand(a)
+                m = re.match(r"^mach::val::Val::(\w+)::\{Ctor#0\}$", (v or {}).get("fn_def", "") or "")
+                if m:
+                    l = f.variants_at(c.bb, "_1")
+                    r = f.variants_at(c.bb, "_2")
+                    if l and r and len(l) == 1 and len(r) == 1:
+                        cells.setdefault((next(iter(l)), next(iter(r))), set()).add(m.group(1))
         for L in NUM:
             for R in NUM:
                 n += 1
